@@ -2,9 +2,12 @@ package props
 
 import (
 	"bytes"
+	"crypto"
 	"fmt"
+	"reflect"
 	"sync"
 	"time"
+	"verif/mcbor"
 
 	psatoken "github.com/veraison/psatoken"
 	"verif/engine/choice"
@@ -161,7 +164,40 @@ func c03Eval(c *choice.Ctx, st *Stats, a *refmodel.Claims, x psatoken.IClaims, k
 			c.Failf("C03:reused-evidence-verify:"+tag, "%v", err)
 		}
 	}
+	// ... and after it REFUSED a genuinely signed envelope whose payload is not a claims-set, whatever it still
+	// verifies under some key is what its claims are the decoding of
+	bad, badKey := c03SignedNonClaims()
+	if err := used.UnmarshalCOSE(append([]byte{}, bad...)); err == nil {
+		c.Failf("C03:non-claims-payload-accepted:"+tag, "an envelope whose payload is a CBOR array was decoded without error")
+	} else {
+		for _, k := range []crypto.PublicKey{badKey.Pub, key.Pub} {
+			if used.Verify(k) != nil {
+				continue
+			}
+			_, _, payload, _, _, _ := used.VerifMessage()
+			y, derr := psatoken.DecodeClaimsFromCBOR(payload)
+			if used.Claims == nil || reflect.ValueOf(used.Claims).IsNil() {
+				continue // nothing is exposed
+			}
+			if derr != nil || getterVector(y) != getterVector(used.Claims) {
+				c.Failf("C03:verified-envelope-is-not-the-claims:"+tag, "after a refused decode the Evidence verifies an envelope (payload %x) that its claims are not the decoding of (payload decodes: %v)", clip(payload), derr)
+			}
+		}
+	}
 	st.Outcome("round-trip-ok:" + algName)
+}
+
+var c03BadOnce sync.Once
+var c03Bad []byte
+
+func c03SignedNonClaims() ([]byte, *fixtures.Key) {
+	k := fixtures.Get("ES256", 2)
+	c03BadOnce.Do(func() {
+		prot := protHeader("ES256")
+		pl := mcbor.Encode(mcbor.A(mcbor.U(1), mcbor.U(2)))
+		c03Bad = envelope(prot, mcbor.M(), pl, rawSign(k, "ES256", prot, pl))
+	})
+	return c03Bad, k
 }
 
 func init() {
@@ -173,7 +209,7 @@ func init() {
 				key := fixtures.Get(algName, 1+c.Choose("key", 2))
 				validating := c.Choose("entry", 2) == 0
 				prior := c.Choose("evidence-used-before", 3)
-				a := genValid(c, kind, false)
+				a := genValidOpt(c, kind, false, true)
 				x, err := buildBySetters(a)
 				if err == errNotRepresentable {
 					x, err = realise(a)
@@ -187,6 +223,64 @@ func init() {
 			}, nil
 		}
 	}
+	// what one Evidence signed / decoded stays what it was while another Evidence signs (single goroutine, run first)
+	Scenarios["c03.two-evidences"] = func() (choice.Scenario, func() any) {
+		return func(c *choice.Ctx) {
+			algName := fixtures.AlgNames[c.Choose("alg", len(fixtures.AlgNames))]
+			key := fixtures.Get(algName, 1)
+			kind := c.Choose("profile", 2)
+			a := genValidOpt(c, kind, false, true)
+			x, err := buildBySetters(a)
+			if err != nil {
+				return
+			}
+			evA := &psatoken.Evidence{}
+			if evA.SetClaims(x) != nil {
+				return
+			}
+			tokA, err := evA.ValidateAndSign(key.Signer())
+			if err != nil {
+				return
+			}
+			keptTok := append([]byte{}, tokA...)
+			_, _, plA, _, _, _ := evA.VerifMessage()
+			keptPl := append([]byte{}, plA...)
+			decA, err := psatoken.DecodeEvidenceFromCOSE(append([]byte{}, tokA...))
+			if err != nil {
+				return
+			}
+			c03stats.StateStr("two" + algName + a.String())
+			// another Evidence signs other (larger and smaller) claims-sets
+			for _, o := range c02Claims() {
+				y, err := buildBySetters(o)
+				if err != nil {
+					continue
+				}
+				evB := &psatoken.Evidence{}
+				_ = evB.SetClaims(y)
+				_, _ = evB.ValidateAndSign(fixtures.Get("ES256", 2).Signer())
+				_, _ = psatoken.EncodeClaimsToCBOR(y)
+				c03stats.Trans.Add(2)
+			}
+			tag := kindNames[kind] + ":" + algName
+			if !bytes.Equal(tokA, keptTok) {
+				c.Failf("C03:token-bytes-change:"+tag, "the token returned by ValidateAndSign changed when another Evidence signed afterwards")
+			}
+			if _, _, pl, _, _, _ := evA.VerifMessage(); !bytes.Equal(pl, keptPl) {
+				c.Failf("C03:covered-payload-changes:"+tag, "the payload held by the signing Evidence changed when another Evidence signed afterwards\n was %x\n now %x", clip(keptPl), clip(pl))
+			}
+			if err := evA.Verify(key.Pub); err != nil {
+				c.Failf("C03:signing-evidence-stops-verifying:"+tag, "%v", err)
+			}
+			if err := decA.Verify(key.Pub); err != nil {
+				c.Failf("C03:decoded-evidence-stops-verifying:"+tag, "%v", err)
+			}
+			if g := getterVector(decA.Claims); g != expectedVector(a) {
+				c.Failf("C03:decoded-claims-change:"+tag, "got %s", g)
+			}
+			c03stats.Outcome("two-evidences-ok")
+		}, nil
+	}
 	Checks["C03"] = func(r *evid.Run) {
 		registerStandardExt()
 		c03stats = NewStats()
@@ -195,6 +289,7 @@ func init() {
 		if thorough(r) {
 			b = 4
 		}
+		exploreChoiceOpts(r, "c03.two-evidences", 2, dl, 1)
 		for kind := 0; kind < 3; kind++ {
 			exploreChoice(r, "c03."+kindNames[kind], b, dl)
 		}
